@@ -5,6 +5,7 @@
   (decision as a function of the computed utilisation, for every rounding function) this gives the
   band decision as a function of the exact utilisation.
 -/
+import EscProofs.P.GenLoopsModel
 import EscProofs.P.GenLoops
 import EscProofs.P.GenTriggers
 import EscProofs.P.GenReap
